@@ -157,6 +157,16 @@ func init() {
 			ln := ex.tt.BV(uint64(n), 64)
 			return Slice{Base: Ptr{Obj: obj}, Off: ex.tt.BV(0, 64), Len: ln, Cap: ln}, true
 		},
+		"(*strings.Builder).String": func(ex *Exec, c *callCtx) (Value, bool) {
+			// the real method goes through unsafe.String(unsafe.SliceData(buf)); same content
+			b := ex.load(c.s, c.args[0].(Ptr)).(Agg)
+			sl := b[1].(Slice)
+			n, ok := ex.concretize(c.s, sl.Len, 4096, c.pend)
+			if !ok {
+				return nil, false
+			}
+			return Str{B: ex.sliceElems(c.s, sl, n)}, true
+		},
 		"fmt.Errorf":  inErrorf,
 		"fmt.Sprintf": inSprintf,
 		"fmt.Sprint":  inSprintf,
